@@ -3,6 +3,7 @@
 package impl
 
 import (
+	"github.com/shopspring/decimal"
 	"math"
 
 	dtpb "github.com/google/fhir/go/proto/google/fhir/proto/r4/core/datatypes_go_proto"
@@ -139,6 +140,8 @@ func verifNum(a any) (int64, bool) {
 		return int64(x), true
 	case *dtpb.Integer:
 		return int64(x.Value), true
+	case system.Decimal:
+		return decimal.Decimal(x).IntPart(), true // the harness draws integral Decimals only
 	}
 	return math.MinInt64, false
 }
@@ -156,7 +159,7 @@ func verifContains(c system.Collection, v any) bool {
 // isDistinct() iff count() = distinct().count(); no null items.
 func VerifHarness_C10_Distinct() {
 	n := verifrt.Choose("n", verifMaxLen()+1)
-	input := verifItems("it", n, 4)
+	input := verifItems("it", n, 5)
 	got, err := Distinct(verifCtx(), input)
 	var want system.Collection
 	for _, v := range input {
@@ -178,8 +181,8 @@ func VerifHarness_C10_Distinct() {
 func VerifHarness_C10_Exclude() {
 	n := 1 + verifrt.Choose("n", verifrt.Bound(2, 3))
 	m := verifrt.Choose("m", verifrt.Bound(2, 3)+1)
-	input := verifItemsOf("it", n, []int{0, 2, 3})
-	other := verifItemsOf("ot", m, []int{0, 2, 3})
+	input := verifItemsOf("it", n, []int{0, 2, 3, 4})
+	other := verifItemsOf("ot", m, []int{0, 2, 3, 4})
 	got, err := Exclude(verifCtx(), input, verifConst(other))
 	var want system.Collection
 	for _, v := range input {
@@ -204,8 +207,8 @@ func VerifHarness_C10_Exclude() {
 func VerifHarness_C10_Intersect() {
 	n := 1 + verifrt.Choose("n", verifrt.Bound(2, 3))
 	m := verifrt.Choose("m", verifrt.Bound(2, 3)+1)
-	input := verifItemsOf("it", n, []int{0, 2, 3})
-	other := verifItemsOf("ot", m, []int{0, 2, 3})
+	input := verifItemsOf("it", n, []int{0, 2, 3, 4})
+	other := verifItemsOf("ot", m, []int{0, 2, 3, 4})
 	got, err := Intersect(verifCtx(), input, verifConst(other))
 	var want system.Collection
 	for _, v := range input {
